@@ -70,6 +70,11 @@ class Lexer(object):
 
     @TOKEN(r'("(\\.|[^"\\])*")|(\'(\\.|[^\'\\])*\')')
     def t_STRING(self, t):
+        # A quoted string may span several lines: the line breaks inside it count like any other
+        t.lexer.lineno += (
+            t.value.count("\n") + t.value.count("\r") - t.value.count("\r\n")
+        )
+
         try:
             # Non-ASCII characters are turned into escapes first, so that decoding the escapes leaves them intact
             t.value = (
